@@ -72,7 +72,7 @@ func shapeOf(q *gqlgen.Query) shape {
 func main() {
 	o := vh.ParseFlags()
 	run := vh.NewRun("C01", o)
-	run.Rule = "generated schema shape built under 3 execution-mode assignments x (scripted schedule, FIFO, LIFO, immediate goroutines); non-trivial = the query has a fragment, and a duplicate alias or a union, the result is a non-empty object and the scripted run executed at least 3 work units; distinct by query text + data + modes"
+	run.Rule = "generated schema shape built under 3 execution-mode assignments x (scripted schedule, FIFO, LIFO, immediate goroutines, and FIFO / goroutines inside a reactive.Rerunner); objects by pointer and by value, resolvers with pointer and value receivers, objects reached through several response paths; non-trivial = the query has a fragment, and a duplicate alias or a union, the result is a non-empty object and the scripted run executed at least 3 work units; distinct by query text + data + modes"
 	r := vh.NewRng(o.Seed)
 
 	var cases []*gqlgen.Case
@@ -153,9 +153,16 @@ func main() {
 				{"fifo", &gqlgen.Scripted{}, nil},
 				{"lifo", &gqlgen.Scripted{LIFO: true}, nil},
 				{"goroutines", graphql.NewImmediateGoroutineScheduler(), nil},
+				{"rerunner/fifo", &gqlgen.Scripted{}, nil},
+				{"rerunner/goroutines", graphql.NewImmediateGoroutineScheduler(), nil},
 			}
 			for si, sc := range scheds {
-				obs := gqlgen.Exec(b, text, q.Vars, sc.s)
+				var obs gqlgen.Observed
+				if strings.HasPrefix(sc.name, "rerunner") {
+					obs = gqlgen.ExecRerunner(b, text, q.Vars, sc.s)
+				} else {
+					obs = gqlgen.Exec(b, text, q.Vars, sc.s)
+				}
 				tag := fmt.Sprintf("modes#%d/%s", mi, sc.name)
 				if obs.Stage == "harness" {
 					run.Fail(idx, "escaped-panic-or-timeout", tag+": "+obs.String(), c)
@@ -175,7 +182,12 @@ func main() {
 						if !qq.DirsWellFormed() {
 							return false
 						}
-						o2 := gqlgen.Exec(b, qq.Text(), qq.Vars, &gqlgen.Scripted{})
+						var o2 gqlgen.Observed
+						if strings.HasPrefix(sc.name, "rerunner") {
+							o2 = gqlgen.ExecRerunner(b, qq.Text(), qq.Vars, &gqlgen.Scripted{})
+						} else {
+							o2 = gqlgen.Exec(b, qq.Text(), qq.Vars, &gqlgen.Scripted{})
+						}
 						r2 := gqlgen.RefEval(c.Spec, c.Data, qq.Prune())
 						return o2.Stage == "execute" || (o2.OK && !reflect.DeepEqual(o2.JSON, roundTrip(r2.JSON)))
 					}
@@ -206,7 +218,7 @@ func main() {
 							run.Hist("unit:plain")
 						}
 					}
-				} else if si == 2 || si == 3 {
+				} else if si == 2 || si == 3 || si == 4 {
 					runs = append(runs, gqlgen.CoqRun(mi, 0, nil, obs))
 				}
 			}
